@@ -65,3 +65,6 @@ prop("C14", lambda t, s: [("mc", "RembAlg", n(t, "McRemb", "McRembThorough")), (
 
 prop("C15", lambda t, s: [("mc", "XrWalk", n(t, "McXr", "McXrThorough")), ("mc", "Mc", "McWireXr"), ("drive", "xrrand", n(t, 1500, 60000))],
      exhaustive_note="McXr enumerates every sequence of 0..2 (thorough: 0..3) report blocks over 17 block choices (the 7 defined kinds, unknown types 0, 8, 255 with different contents, empty and longer lists, other flag combinations) and walks each encoding with an independent block walker; McWireXr sweeps the XR star domain")
+
+prop("C16", lambda t, s: [("mc", "UnitsMc", n(t, "McUnits", "McUnitsThorough")), ("mc", "Mc", "McWireUnits"), ("drive", "units", n(t, 2000, 50000)), ("drive", "sweeps", n(t, 65537, 1))],
+     exhaustive_note="McUnits checks and emits rows of 256 consecutive wire words of the 2^16 tables of run-length chunks, status-vector chunks, 2-octet deltas, metric blocks, RLE chunks and header lengths (quick: 37 rows of each; thorough: all 256), the complete 1-octet delta table and the header octet-0 x PT table; the thorough tier adds exhaustive Go sweeps of all 2^24 loss counts, all 2^32 header words, NACK pairs and SLI words (quick: every 65537th)")
